@@ -413,9 +413,12 @@ class C15Monitor(explore.Monitor):
         return row in rows and col in x[3]
       idx = [i for i, x in enumerate(acts) if writes(x)]
       if idx and _is_int(a) and _is_int(allowed[0]) and a == allowed[0] + 1:
-        x = acts[idx[-1]]
-        v = x[3][col][x[2].index(row)] if isinstance(x[2], list) else x[3][col]
-        if len(idx) == 1 and v == b:
+        def written(i):
+          x = acts[i]
+          return x[3][col][x[2].index(row)] if isinstance(x[2], list) else x[3][col]
+        v = written(idx[-1])
+        stored_before = written(idx[-2]) if len(idx) > 1 else b
+        if v == stored_before:
           return "explicit_value_kept:update:supplied-value-equals-stored-value-so-not-protected"
         if idx[-1] < len(acts) - 1:
           return ("explicit_value_kept:bundle:value-supplied-by-a-non-last-action-recalculated-"
